@@ -10,6 +10,7 @@ import (
 	"os"
 	"os/exec"
 	"path/filepath"
+	"regexp"
 	"runtime"
 	"runtime/debug"
 	"runtime/pprof"
@@ -346,6 +347,10 @@ type harnessCfg struct {
 	Quick    tierCfg `json:"quick"`
 	Thorough tierCfg `json:"thorough"`
 	Note     string  `json:"note"`
+	// OrderDependent: the harness quantifies over Go's map iteration order, which a
+	// native run cannot steer; a candidate is confirmed when any of several native
+	// runs fails (in whatever way the order at hand produces).
+	OrderDependent bool `json:"order_dependent"`
 }
 
 type propCfg struct {
@@ -412,6 +417,10 @@ func (k knownFinding) matches(prop string, v *interp.Violation) bool {
 }
 
 func globMatch(pat, s string) bool {
+	if strings.HasPrefix(pat, "re:") {
+		re, err := regexp.Compile(strings.TrimPrefix(pat, "re:"))
+		return err == nil && re.MatchString(s)
+	}
 	if strings.HasSuffix(pat, "*") {
 		return strings.HasPrefix(s, strings.TrimSuffix(pat, "*"))
 	}
@@ -443,6 +452,7 @@ type exploreStats struct {
 	MaxInputs    int
 	StaticAsserts, StaticReach []string
 	EngineErrors []string
+	ForkSites    map[string]int
 }
 
 type modelCase struct {
@@ -568,6 +578,12 @@ func explore(p *pool, h harnessCfg, tc tierCfg, params map[string]int, seed int6
 		for _, m := range res.Inconclusive {
 			st.Inconclusive[m]++
 		}
+		for k, n := range res.ForkSites {
+			if st.ForkSites == nil {
+				st.ForkSites = map[string]int{}
+			}
+			st.ForkSites[k] += n
+		}
 		switch res.Status {
 		case "engine-error", "harness-error":
 			st.EngineErrors = append(st.EngineErrors, res.Status+": "+res.Detail)
@@ -675,6 +691,17 @@ func runNative(ov *overlaySet, pkg string, cases []nativeCase, timeout time.Dura
 	return outs, string(outb), runErr
 }
 
+func orderDependent(cfgs map[string]propCfg, name string) bool {
+	for _, p := range cfgs {
+		for _, h := range p.Harnesses {
+			if h.Name == name && h.OrderDependent {
+				return true
+			}
+		}
+	}
+	return false
+}
+
 func pkgOfHarness(cfgs map[string]propCfg, name string) string {
 	for _, p := range cfgs {
 		for _, h := range p.Harnesses {
@@ -687,13 +714,35 @@ func pkgOfHarness(cfgs map[string]propCfg, name string) string {
 }
 
 // confirm replays a candidate natively; it reports whether the real build fails the same way.
+func confirmRetry(ov *overlaySet, pkg string, v *interp.Violation, params map[string]int, tries int) (bool, string) {
+	last := ""
+	for i := 0; i < tries; i++ {
+		c := nativeCase{Harness: v.Harness, Inputs: v.Inputs, Choices: v.Choices, Params: params}
+		var cases []nativeCase
+		for k := 0; k < 8; k++ {
+			cases = append(cases, c)
+		}
+		outs, raw, _ := runNative(ov, pkg, cases, 120*time.Second)
+		if len(outs) < len(cases) && (strings.Contains(raw, "fatal error:") || strings.Contains(raw, "panic:") || strings.Contains(raw, "test timed out")) {
+			return true, "a native run crashed or hung: " + lastLines(raw, 4)
+		}
+		for _, o := range outs {
+			if o.Status == "assert" || o.Status == "panic" {
+				return true, fmt.Sprintf("a native run (map order as it fell) fails: %s %s %s %s", o.Status, o.ID, o.Detail, o.Site)
+			}
+			last = o.Status
+		}
+	}
+	return false, "no native run failed in " + fmt.Sprint(tries*8) + " tries (last outcome " + last + ")"
+}
+
 func confirm(ov *overlaySet, pkg string, v *interp.Violation, params map[string]int) (bool, string) {
 	c := nativeCase{Harness: v.Harness, Inputs: v.Inputs, Choices: v.Choices, Params: params}
 	timeout := 60 * time.Second
 	outs, raw, err := runNative(ov, pkg, []nativeCase{c}, timeout)
 	if len(outs) == 0 {
 		if v.Kind == "budget" || v.Kind == "deadlock" {
-			if strings.Contains(raw, "test timed out") || strings.Contains(raw, "all goroutines are asleep") {
+			if strings.Contains(raw, "test timed out") || strings.Contains(raw, "all goroutines are asleep") || strings.Contains(raw, "stack overflow") {
 				return true, "native run hangs: " + lastLines(raw, 3)
 			}
 		}
@@ -891,6 +940,7 @@ func checkMain(prop, tier string) int {
 		}
 	}
 	nViol := 0
+	knownPrinted := map[string]bool{}
 	var knownSeen, unconfirmed, violationsOut []string
 	for n, k := range order {
 		g := groups[k]
@@ -907,7 +957,13 @@ func checkMain(prop, tier string) int {
 			if !v.ModelOK && len(v.Inputs) == 0 && v.Kind == "assert" {
 				continue
 			}
-			ok, msg := confirm(ov, pkgOfHarness(cfgs, v.Harness), v, g.prm)
+			var ok bool
+			var msg string
+			if orderDependent(cfgs, v.Harness) {
+				ok, msg = confirmRetry(ov, pkgOfHarness(cfgs, v.Harness), v, g.prm, 3)
+			} else {
+				ok, msg = confirm(ov, pkgOfHarness(cfgs, v.Harness), v, g.prm)
+			}
 			how = msg
 			if ok {
 				confirmed, cv = true, v
@@ -921,9 +977,11 @@ func checkMain(prop, tier string) int {
 			continue
 		}
 		if kf != nil {
-			line := fmt.Sprintf("KNOWN-FINDING: property=%s %s [harness=%s id=%s tags=%s; %s]", prop, kf.What, cv.Harness, cv.ID, tagString(cv.Tags), how)
-			fmt.Println(line)
-			knownSeen = append(knownSeen, line)
+			if !knownPrinted[kf.What] {
+				knownPrinted[kf.What] = true
+				fmt.Printf("KNOWN-FINDING: property=%s %s [first seen: harness=%s id=%s tags=%s; %s]\n", prop, kf.What, cv.Harness, cv.ID, tagString(cv.Tags), how)
+			}
+			knownSeen = append(knownSeen, fmt.Sprintf("%s | harness=%s kind=%s id=%s tags=%s | %s", kf.What, cv.Harness, cv.Kind, cv.ID, tagString(cv.Tags), how))
 			continue
 		}
 		nViol++
@@ -989,6 +1047,9 @@ func validateModels(pl *pool, ov *overlaySet, cfgs map[string]propCfg, all []*ex
 	}
 	byPkg := map[string][]item{}
 	for _, st := range all {
+		if orderDependent(cfgs, st.Harness) {
+			continue // a native run cannot be steered onto the explored map order
+		}
 		for _, m := range st.Models {
 			pkg := pkgOfHarness(cfgs, st.Harness)
 			byPkg[pkg] = append(byPkg[pkg], item{st, m})
@@ -1266,6 +1327,23 @@ func devHarness(args []string) int {
 	}
 	for k, n := range seen {
 		fmt.Printf("candidates %s x%d\n", k, n)
+	}
+	if os.Getenv("VERIF_FORKS") != "" {
+		type kv struct {
+			k string
+			n int
+		}
+		var l []kv
+		for k, n := range st.ForkSites {
+			l = append(l, kv{k, n})
+		}
+		sort.Slice(l, func(i, j int) bool { return l[i].n > l[j].n })
+		for i, e := range l {
+			if i >= 15 {
+				break
+			}
+			fmt.Printf("fork site x%d: %s\n", e.n, e.k)
+		}
 	}
 	if os.Getenv("VERIF_FUNCS") != "" {
 		fmt.Println("funcs:", keys(st.Funcs))
